@@ -18,8 +18,12 @@
      the heartbeat removes the volume when  volLm + volumeTtl + delay < now, where volLm
      is the largest LastModified written since the volume was opened (the data file's
      mtime after a reopen, 0 for a brand-new volume)        (volume.go, store.go)
-   ReadsAgree: what B serves is what A admits, modulo the deviations in KF. *)
-EXTENDS Integers, Sequences, FiniteSets, TLC, Json
+   ReadsAgree: what B serves is what A admits, modulo the deviations in KF.
+
+   The filer clause of the statement ("a filer entry with a TTL stores its data in volumes whose
+   TTL is at least the entry's TTL") is the operator VolumeTtlFor(sec, minutes) of TtlAssign.tla,
+   EXTENDed here; FilerClauseCovers / FilerClauseNeeded tie it to Readable. *)
+EXTENDS Integers, Sequences, FiniteSets, TLC, Json, TtlAssign
 CONSTANTS Keys, Datas, BlobTtls, VTtl, Ages, MaxOps, KF
 VARIABLES now, live, gone, rec, volLm, mtime, phase, cp, dirty, hist
 vars == <<now, live, gone, rec, volLm, mtime, phase, cp, dirty, hist>>
@@ -31,6 +35,19 @@ OldDelta == 10000          \* ts = "old": a client timestamp 10000 minutes befor
 EffTtl(bt) == IF bt # "" THEN Min(bt) ELSE Min(VTtl)
 Readable(b, t) == b.ttl = 0 \/ t < b.at + b.ttl
 Delay == IF Min(VTtl) \div 10 > 10 THEN 10 ELSE Min(VTtl) \div 10
+
+(* An entry of s seconds is visible d minutes after its creation iff s = 0 \/ d * 60 < s.  A blob
+   appended when the entry is created, in a volume whose TTL VolumeTtlFor admits, is readable at
+   every minute at which the entry is visible; a volume TTL that VolumeTtlFor refuses is not. *)
+FcSecs == {0, 1, 59, 60, 61, 119, 120, 121, 180, 3599, 3600, 3601}
+FcMins == {0, 1, 2, 3, 59, 60, 61}
+Visible(s, d) == s = 0 \/ d * 60 < s
+ASSUME FilerClauseCovers ==
+  \A s \in FcSecs, m \in FcMins, d \in 0..62 :
+     VolumeTtlFor(s, m) /\ Visible(s, d) => Readable([at |-> 1000, ttl |-> m], 1000 + d)
+ASSUME FilerClauseNeeded ==
+  \A s \in FcSecs, m \in FcMins :
+     ~VolumeTtlFor(s, m) => \E d \in 0..62 : Visible(s, d) /\ ~Readable([at |-> 1000, ttl |-> m], 1000 + d)
 
 Init == /\ now = 20000 /\ live = [k \in Keys |-> None] /\ gone = FALSE
         /\ rec = [k \in Keys |-> None] /\ volLm = 0 /\ mtime = 20000
